@@ -9,7 +9,7 @@
    jdump_grid) is not proved; it is covered by the correspondence + search. *)
 From Coq Require Import String List.
 Import ListNotations.
-From HS Require Import Base.Prelude Gen.JsonData Model.Value Model.Version Model.Json Proofs.JsonP Proofs.JsonGridP.
+From HS Require Import Base.Prelude Gen.JsonData Model.Value Model.Version Model.Json Proofs.PreludeP Proofs.JsonP Proofs.JsonGridP Proofs.JsonNestP.
 Open Scope N_scope.
 
 (* text kinds: ANY payload, no hypothesis *)
@@ -109,6 +109,34 @@ Theorem C02_plain_grid : forall n f ver meta cols rows j,
   jdump_grid (S f) ver meta cols rows = Ok j ->
   exists m, j = JObj m /\ jparse_grid (S f) m = Ok (VGrid ver meta cols rows).
 Proof. exact json_plain_grid_roundtrip. Qed.
+(* THE GENERAL THEOREM: jv n v - v is a leaf of any kind that round-trips on its own (the per-kind theorems above), a
+   list, a dict, or a NESTED GRID (with metadata and column metadata) of jv (n-1) values.  Every such value, and every
+   grid over such values, is read back from what the writer makes of it - to any depth. *)
+Theorem C02_values : forall n v, jv n v -> forall f j, jdump f false v = Ok j -> jparse f false j = Ok v.
+Proof. intros n v H f j. exact (jv_roundtrip n v H f j). Qed.
+Theorem C02_full_grid : forall n f ver meta cols rows j,
+  ver_ok ver -> cols <> [] ->
+  NoDup (map fst meta) -> ~ In VER (map fst meta) -> Forall (fun kv => jv n (snd kv)) meta ->
+  NoDup (map fst cols) -> Forall (jcolv (jv n)) cols -> Forall (jrowv (jv n) cols) rows ->
+  jdump_grid (S f) ver meta cols rows = Ok j ->
+  exists m, j = JObj m /\ jparse_grid (S f) m = Ok (VGrid ver meta cols rows).
+Proof. exact json_full_grid. Qed.
+Example C02_nested_grid_nonvacuous :
+  let inner := VGrid (s_ "3.0") [] [(s_ "x", [])] [[(s_ "x", VMarker)]] in
+  jv 3 (VGrid (s_ "3.0") [] [(s_ "a", [])] [[(s_ "a", inner)]]).
+Proof.
+  intro inner.
+  assert (V : ver_ok (s_ "3.0")) by (eexists; split; [vm_compute; reflexivity|]; split; vm_compute; reflexivity).
+  assert (G : forall n nm x, jv n x -> jv (S n) (VGrid (s_ "3.0") [] [(nm, [])] [[(nm, x)]])).
+  { intros n nm x Hx. right. right. right. exists (s_ "3.0"), [], [(nm, [])], [[(nm, x)]].
+    split; [reflexivity|]. split; [exact V|]. split; [discriminate|]. split; [constructor|]. split; [intros []|]. split; [constructor|].
+    split; [repeat constructor; intros []|]. split.
+    - constructor; [split; [constructor|split; [intros []|constructor]]|constructor].
+    - constructor; [|constructor]. split; [|constructor; [exact Hx|constructor]].
+      unfold canon_row. cbn [map fst assoc]. rewrite PreludeP.str_eqb_refl. reflexivity. }
+  apply G. apply G. left. split; [reflexivity|apply leaf_marker].
+Qed.
+
 (* rows given as one value per column are canonical *)
 Theorem C02_rows_canonical : forall (cols : list (str * list (str * hval))) cells,
   NoDup (map fst cols) -> length cells = length cols -> canon_row cols (combine (map fst cols) cells).
@@ -145,3 +173,5 @@ Qed.
 Print Assumptions C02_grid.
 Print Assumptions C02_plain_grid.
 Print Assumptions C02_rows_canonical.
+Print Assumptions C02_values.
+Print Assumptions C02_full_grid.
